@@ -4,3 +4,8 @@ import RaftWal.Props.C07
 #print axioms RaftWal.C07.later_sync_makes_data_durable
 #print axioms RaftWal.C07.delete_durable
 #print axioms RaftWal.C07.metadb_init_atomic
+#print axioms RaftWal.C07.hstep_post
+#print axioms RaftWal.C07.acknowledged_sync_is_durable
+#print axioms RaftWal.C07.flag_after_file_sync_refuted
+#print axioms RaftWal.C07.flag_before_file_sync_refuted
+#print axioms RaftWal.C07.flag_policy_from_source
